@@ -102,12 +102,13 @@ static void case_gds_roundtrip(double v, bool neighbour16) {
          (int)g.neg, g.e, (unsigned long long)g.m, back, hex64(dbits(back)).c_str());
     // distance below the top of the format's range, 16^63 = 2^252, in ulps of the binade [2^251, 2^252)
     uint64_t below_top = (dv.finite && dv.E == 199) ? (1ull << 53) - dv.M : ~0ull;
-    JFields tags = {{"sign", jstr(dv.neg ? "neg" : "pos")}, {"exp16", jint((int64_t)floor((dv.E + 52) / 4.0))},
-                    {"ulps_below_16_pow_63", below_top <= 100000 ? jint((int64_t)below_top) : jstr("far")}, {"sign_preserved", jbool(g.neg == dv.neg)},
-                    {"exponent_byte", jint(g.e)}};
-    std::string cj = jobj({{"v", jdbl(v)}, {"real8", jstr(hex64(r))}, {"to_double", jdbl(back)}});
+    // tags are coarse predicates (the engine caps output per distinct sub/class/tags); per-case numbers go into the case
+    JFields tags = {{"sign", jstr(dv.neg ? "neg" : "pos")}, {"top_band_below_16pow63", jbool(below_top <= 100000)}, {"sign_preserved", jbool(g.neg == dv.neg)},
+                    {"exponent_byte_wrapped_to_0", jbool(g.e == 0 && dv.E + 52 >= 248)}};
+    std::string cj = jobj({{"v", jdbl(v)}, {"real8", jstr(hex64(r))}, {"to_double", jdbl(back)}, {"exponent_of_16", jint((int64_t)floor((dv.E + 52) / 4.0))},
+                           {"doubles_below_16pow63", below_top <= 100000 ? jint((int64_t)below_top) : jstr("far")}});
     // failure classes are split by region so that the per-class output cap cannot hide a failure elsewhere
-    const char* band = below_top <= 100000 ? ":within_1e5_ulps_below_16^63" : "";
+    const char* band = below_top <= 100000 ? ":top_band_below_16pow63" : "";
     if (v == 0) {
         if (g.m != 0) R->violation(sub, "zero_not_zero", tags, cj, "from_double(0) has a non-zero mantissa", replay);
         if (back != 0) R->violation(sub, "zero_not_zero", tags, cj, "to_double(from_double(0)) != 0", replay);
@@ -580,8 +581,7 @@ static void case_real_roundtrip(const RealCase& c) {
     int64_t ulps = (int64_t)(dbits(back) & ~(1ull << 63)) - (int64_t)(dbits(v) & ~(1ull << 63));
     JFields tags = {{"form", jstr(real_form_name(t))}, {"type", jint(t)}, {"sign", jstr((dbits(v) >> 63) ? "neg" : "pos")}, {"ulps_off", jint(ulps < 0 ? -ulps : ulps)},
                     {"blame", jstr(!refok ? "encoder:malformed" : dbits(ref) != dbits(v) && !(ref == 0 && v == 0) ? "encoder" : "decoder")}};
-    if (t >= 0 && t <= 3) tags.push_back({"n", jstr(dec128(n))});
-    std::string cj = jobj({{"v", jdbl(v)}, {"encoding", jstr(hexb(enc))}, {"form", jstr(real_form_name(t))}, {"read_back", jdbl(back)}, {"reference_decode", refok ? jdbl(ref) : jstr("malformed")}});
+    std::string cj = jobj({{"v", jdbl(v)}, {"encoding", jstr(hexb(enc))}, {"form", jstr(real_form_name(t))}, {"n", t >= 0 && t <= 3 ? jstr(dec128(n)) : jstr("-")}, {"read_back", jdbl(back)}, {"reference_decode", refok ? jdbl(ref) : jstr("malformed")}});
     if (ec != ErrorCode::NoError) { R->violation(sub, "decode_error_flag", tags, cj, "reading back the written real sets an error", replay); return; }
     if (v == 0 && back == 0) {   // same value; the sign of zero is not representable in the integer form
         if (dbits(v) != dbits(back)) { R->count("negative_zero_read_back_as_positive_zero"); R->outcome(sub, "-0 -> +0"); }
@@ -799,6 +799,7 @@ static void case_plist(const PV& deltas, bool closed, int64_t mult) {
         else if (o.ret != N - 1) R->violation(sub_rt, "return_count", tags, cj(enc, fmt("returned %llu", (unsigned long long)o.ret)), "returned vertex count differs from the number of vertices appended", replay);
         else if (o.consumed != (long)enc.size()) R->violation(sub_rt, "decode_framing", tags, cj(enc, fmt("consumed %ld", o.consumed)), "decoder consumed a different number of bytes than were written", replay);
         // the Vec2 overload (scaling 2 on half-integer coordinates) must write the same bytes; read back with scaling 1/2
+        if (D.size() <= 4) {   // 5-delta lists: the overload/scaling variants add nothing over <= 4 deltas
         Array<Vec2> av = {};
         for (auto& p : V) av.append(Vec2{0.5 * (double)(wref.x + p.x), 0.5 * (double)(wref.y + p.y)});
         WS w2;
@@ -810,6 +811,7 @@ static void case_plist(const PV& deltas, bool closed, int64_t mult) {
         PlRead o2 = gd_read_plist(enc, Vec2{0, 0}, 0.5, closed);
         if (o2.ec == ErrorCode::NoError && o.ec == ErrorCode::NoError && pl_same(o, V, rref, 1.0) && !pl_same(o2, V, Vec2{0, 0}, 0.5))
             R->violation(sub_rt, "list_changed_scaled", tags, cj(enc, jvec(o2.pts)), "read with scaling 0.5 is not the scaled list", replay);
+        }
     }
     // ---------- reference encoder (each type that can express the list) -> gdstk reader
     for (int t = 0; t <= 6; t++) {
@@ -857,7 +859,7 @@ static void plist_checks(bool T) {
         bool ok = parallel_for(*R, nch, body, [&](int64_t c) { return jobj({{"chunk", jint(c)}, {"first_list_of_chunk", jpts(plist_deltas(D, c * chunk))}}); },
                                [&](int64_t c) { return fmt("sub=%s chunk=%lld", sub.c_str(), (long long)c); }, PFOptions{120, sub, true});
         R->sample(sub, jobj({{"deltas", jpts(plist_deltas(D, total / 3))}}));
-        R->bound(sub, fmt("all 25^%d lists of %d deltas from {-2..2}^2 x {open, closed} x delta multipliers {%s}: IntVec2 and Vec2 writers -> gdstk reader and reference decoder; every expressible list type (0-5 and all-form-2 general) by the reference encoder -> gdstk reader",
+        R->bound(sub, fmt("all 25^%d lists of %d deltas from {-2..2}^2 x {open, closed} x delta multipliers {%s}: IntVec2 writer (and, up to 4 deltas, Vec2 writer with scaling) -> gdstk reader and reference decoder; every expressible list type (0-5 and all-form-2 general) by the reference encoder -> gdstk reader",
                           D, D, mults.size() == 3 ? "1,8,64" : mults.size() == 2 ? "1,64" : "1"),
                  ok, total * 2 * (int64_t)mults.size());
     }
